@@ -270,6 +270,14 @@ func (idx *IVFIndex) Add(vector VectorNode) error {
 		return err
 	}
 
+	// Re-adding an ID whose removal is still pending: apply the pending removals first,
+	// otherwise the tombstone would hide the new vector (and the next Flush would drop it)
+	if idx.deletedNodes.Contains(vector.ID()) {
+		if err := idx.flushLocked(); err != nil {
+			return err
+		}
+	}
+
 	// Find the nearest centroid (call utility directly since we already hold write lock)
 	nearestCentroidIdx := FindNearestCentroidIndex(vector.Vector(), idx.centroids, idx.distance)
 
@@ -363,6 +371,11 @@ func (idx *IVFIndex) Flush() error {
 	idx.mu.Lock()
 	defer idx.mu.Unlock()
 
+	return idx.flushLocked()
+}
+
+// flushLocked is Flush for callers that already hold the write lock.
+func (idx *IVFIndex) flushLocked() error {
 	// Quick exit if nothing to flush
 	deletedCount := int(idx.deletedNodes.GetCardinality())
 	if deletedCount == 0 {
